@@ -173,7 +173,7 @@ class SysSim(Engine):
         for _ in range(n_rounds):
             ops.append(self._gen_check(rng, world))
             if rng.chance(0.75):
-                ops.append({"op": "fault", "kind": rng.weighted([("delta_big", 3), ("delta_small", 3), ("delta_just_above", 3), ("delta_0p2", 1), ("delta_1p5", 1), ("delta_4", 1),
+                ops.append({"op": "fault", "kind": rng.weighted([("delta_big", 3), ("delta_small", 3), ("delta_just_above", 6), ("delta_0p2", 1), ("delta_1p5", 1), ("delta_4", 1),
                                                   ("nan", 2), ("neg_big", 2), ("neg_small", 1), ("inf_pair", 1)]),
                             "arr": rng.randint(0, 50), "role": rng.choice(["flow", "flow", "inflow", "outflow"]), "entry": rng.randint(0, 10 ** 6),
                             "sign": rng.choice([1, -1])})
